@@ -309,8 +309,11 @@ def run(spec, ctx):
             for t in bare:
                 for ident in order:
                     texts.append(t % ident)
+        # list literals on either side of the membership operators, with repeated and look-alike items
+        for lst in ("[1, 1]", "[1, 2, 1]", "['a', 'a']", "[1, 1.0]", "[1, true]", "[null, null]", "[1]", "[]", "['a', \"a\"]", "[0, -0]", "[1e0, 1]"):
+            texts += ["$[?%s in @.a]" % lst, "$[?@.a contains %s]" % lst, "$[?@.a in %s]" % lst, "$[?%s contains @.a]" % lst, "$[?%s == @.a]" % lst, "$[?@.a != %s]" % lst, "$..[?%s in @]" % lst]
         texts += ["$[?length(^) == 1 && length($) == 2]", "$[?length($) == 2 && length(^) == 1]", "$[?^ == $]", "$[?$ == ^]", "$[?_ == @ || ^ == @]", "^[?length(^) == 1]", "^[?length($) == 2]", "$[?count(^) == count($)]"]
-        docs = POOL + [[5, 6], [[5, 6]], {"a": [5, 6]}, [5]] + [[{"a": v, "b": 1, "c": 0} for v in (1, 2, "x", "a'b", 'a"b', "a\\b", True, False, None, 100.0, 1e20, 1e-7, 0, -0.0, 1.5, 1500.0, "x\ny", "xzy")]]
+        docs = POOL + [[5, 6], [[5, 6]], {"a": [5, 6]}, [5]] + [[{"a": [[1, 1], [2]]}, {"a": [[1], [2]]}, {"a": [1, 1]}, {"a": [1]}, {"a": 1}, {"a": [["a", "a"]]}, {"a": [["a"]]}, {"a": [[1, 2, 1]]}, {"a": [[1, 2]]}, {"a": [[1, 1.0]]}, {"a": [[None, None], [None]]}, {"a": [[0, 0]]}, {"a": [[]]}]] + [[{"a": v, "b": 1, "c": 0} for v in (1, 2, "x", "a'b", 'a"b', "a\\b", True, False, None, 100.0, 1e20, 1e-7, 0, -0.0, 1.5, 1500.0, "x\ny", "xzy")]]
         for t in texts:
             check_text(ctx, t, docs, "directed", must_compile=False)
         ctx.count("directed_texts", len(texts))
